@@ -690,7 +690,8 @@ def run_system(ctx, replay_history=None):
 def run(ctx, only_cases=None):
     _run(ctx, only_cases)
     if only_cases is None:
-        from lib import authoropts
+        from lib import authoropts, identity
+        identity.check(ctx, 'check_approvals: project_leaders, robot, author against host approvals / participants')
         authoropts.check(ctx, relevant=BYPASSES)      # "bypassed ... per-author setting": several authors in one file
         run_system(ctx)
     if only_cases is None and ctx.spec_fail:
